@@ -5,10 +5,12 @@
 
 pub mod cachemodel;
 pub mod engine;
+pub mod fuzzrun;
 pub mod gen;
 pub mod props;
 pub mod rwire;
 pub mod rzone;
+pub mod seeds;
 pub mod util;
 pub mod wiregen;
 pub mod ztext;
@@ -18,3 +20,7 @@ use engine::PropertyDef;
 pub fn registry() -> Vec<PropertyDef> {
     props::all()
 }
+
+// re-exports for the fuzz crate
+pub use dns_types::hosts::types::Hosts;
+pub use dns_types::zones::types::Zone;
